@@ -208,6 +208,9 @@ func c14Step(h afero.File, ref *refFile, tag string) {
 // Harness_C14_handle_matches_byte_array: an open handle against a byte-array reference for every sequence
 // of up to N symbolic calls, then Close, Stat and a fresh read.
 func Harness_C14_handle_matches_byte_array() {
+	if vm.Bool("fileWriteCache") {
+		verifWriteCacheType = config.WriteCacheTypeFile
+	}
 	v := verifNewFS(config.PipeConfig{}, false, true)
 	v.rootOnly()
 	l := vm.Concretize(vm.Int("len", 0, 3))
